@@ -102,14 +102,22 @@ func hideDef(def string, opaque []string) string {
 }
 
 type solverSpec struct {
-	name string
+	name string // label in the evidence
+	bin  string
 	args func(timeoutS int, file string) []string
 }
 
+// z3-new/noflat: same solver with n-ary flattening of + / bvadd switched off, which keeps index
+// terms in the shape the quantifier patterns expect (decides in 0.5 s what the default times out on).
 var solvers = []solverSpec{
-	{"z3-new", func(t int, f string) []string { return []string{fmt.Sprintf("-T:%d", t), "smt.random_seed=" + seedStr(), f} }},
-	{"z3", func(t int, f string) []string { return []string{fmt.Sprintf("-T:%d", t), "smt.random_seed=" + seedStr(), f} }},
-	{"cvc5", func(t int, f string) []string {
+	{"z3-new", "z3-new", func(t int, f string) []string {
+		return []string{fmt.Sprintf("-T:%d", t), "smt.random_seed=" + seedStr(), f}
+	}},
+	{"z3-new/noflat", "z3-new", func(t int, f string) []string {
+		return []string{fmt.Sprintf("-T:%d", t), "rewriter.flat=false", "smt.random_seed=" + seedStr(), f}
+	}},
+	{"z3", "z3", func(t int, f string) []string { return []string{fmt.Sprintf("-T:%d", t), "smt.random_seed=" + seedStr(), f} }},
+	{"cvc5", "cvc5", func(t int, f string) []string {
 		return []string{fmt.Sprintf("--tlimit=%d", t*1000), "--seed=" + seedStr(), f}
 	}},
 }
@@ -143,7 +151,7 @@ func raceSolvers(file string, timeoutS int) (status, solver, output string, dur 
 				case <-time.After(1200 * time.Millisecond):
 				}
 			}
-			cmd := exec.CommandContext(ctx, sp.name, sp.args(timeoutS, file)...)
+			cmd := exec.CommandContext(ctx, sp.bin, sp.args(timeoutS, file)...)
 			var buf bytes.Buffer
 			cmd.Stdout = &buf
 			cmd.Stderr = &buf
@@ -265,10 +273,15 @@ func solveAll(obs []*Oblig, outDir string, timeoutS int, workers int) {
 
 // get-value query against the solver that answered sat
 func modelValues(o *Oblig, solver string, terms []string, timeoutS int) map[string]string {
+	return modelValuesExtra(o, solver, terms, timeoutS, "")
+}
+
+// extra: additional assertions (e.g. "prefer small inputs") placed before check-sat
+func modelValuesExtra(o *Oblig, solver string, terms []string, timeoutS int, extra string) map[string]string {
 	if len(terms) == 0 {
 		return nil
 	}
-	q := o.gen.query(o, "")
+	q := o.gen.query(o, extra)
 	q = strings.Replace(q, "(set-logic ALL)\n", "(set-option :produce-models true)\n(set-logic ALL)\n", 1)
 	q += fmt.Sprintf("(get-value (%s))\n", strings.Join(terms, " "))
 	file := strings.TrimSuffix(o.File, ".smt2") + ".model.smt2"
@@ -284,7 +297,7 @@ func modelValues(o *Oblig, solver string, terms []string, timeoutS int) map[stri
 	}
 	ctx, cancel := context.WithTimeout(context.Background(), time.Duration(timeoutS+5)*time.Second)
 	defer cancel()
-	out, _ := exec.CommandContext(ctx, sp.name, sp.args(timeoutS, file)...).CombinedOutput()
+	out, _ := exec.CommandContext(ctx, sp.bin, sp.args(timeoutS, file)...).CombinedOutput()
 	s := string(out)
 	if !strings.HasPrefix(strings.TrimSpace(s), "sat") {
 		return nil
